@@ -29,7 +29,8 @@ def strategy(tier, unit):
     return st.fixed_dictionaries({
         "setting": st.just(unit), "family": st.sampled_from(FAMILIES), "g": st.tuples(gi, gi, gi).map(list),
         "x": st.tuples(gen, gen, gen).map(list), "shift": st.tuples(st.integers(-3, 3), st.integers(-3, 3), st.integers(-3, 3)).map(list),
-        "byname": st.booleans(), "upper": st.booleans(), "blank": st.booleans()})
+        "byname": st.booleans(), "upper": st.booleans(), "blank": st.booleans(),
+        "pos_as": st.sampled_from(["list", "array", "tuple", "int-if-integral"])})
 
 
 def position(case):
@@ -46,7 +47,7 @@ def position(case):
     return [g[0], y, g[2]]       # mixed: special in two coordinates, generic in one
 
 
-def run_one(ctx, g, pos, shift, byname, variant_name=None):
+def run_one(ctx, g, pos, shift, byname, variant_name=None, pos_as="list"):
     from xfab import structure
     orb = g.orbit(pos)
     exact = len(orb)
@@ -61,6 +62,13 @@ def run_one(ctx, g, pos, shift, byname, variant_name=None):
             ctx.event("skipped: distinct images closer than 1e-4 (threshold-dependent)")
             return None
     fpos = [float(p) + int(k) for p, k in zip(pos, shift)]
+    if pos_as == "array":
+        fpos = O.ro(fpos)
+    elif pos_as == "tuple":
+        fpos = tuple(fpos)
+    elif pos_as == "int-if-integral" and all(x.is_integer() for x in fpos):
+        fpos = [int(x) for x in fpos]
+        ctx.event("integer-typed-position")
     if byname:
         m = structure.multiplicity(fpos, sgname=variant_name, cell_choice=g.choice)
     else:
@@ -86,7 +94,7 @@ def check(case, ctx):
         gs = GR.group(*sib)
         run_one(ctx, gs, pos, case["shift"], case["byname"], gs.name)
         ctx.event("sibling-setting-used-first")
-    exact = run_one(ctx, g, pos, case["shift"], case["byname"], name)
+    exact = run_one(ctx, g, pos, case["shift"], case["byname"], name, case.get("pos_as", "list"))
     if exact is None:
         return
     special = exact < g.nsymop
